@@ -1,7 +1,7 @@
-\* recorded histories (env TRACE_FILE): 20 peers x 20 addresses x 3 services, caches 3/3/2
+\* recorded histories (env TRACE_FILE): 20 peers x 20 addresses x 3 services, caches 3/3/2, 4 collections of the caller (one a one-shot iterator)
 SPECIFICATION TraceSpec
 CONSTANTS NP = 20 NA = 20 NS = 3 V6 = {15, 16, 17, 18, 19, 20} BlackAddr = {13, 14} BlackMid = {19, 20}
-          IpCap = 3 IntroCap = 3 SvcCap = 2 Defects = {} MaxDepth = 1000000
+          IpCap = 3 IntroCap = 3 SvcCap = 2 NB = 4 IterBufs = {4} Defects = {} MaxDepth = 1000000
 INVARIANT TraceAccepted
 INVARIANT TypeOK
 INVARIANT LookupsAgree
